@@ -20,6 +20,8 @@ import QV.Lemmas.KronLoop
 import QV.Lemmas.Hilbert
 import QV.Lemmas.Expand
 import QV.Real
+import QV.Props.C01
+import QV.Props.C02
 
 namespace QV.Props
 open QV Finset Unitaries Matrix
@@ -394,5 +396,300 @@ example (basis : Fin 3 → Fin 3) :
   · exact C04_dX_unitary
   · exact C04_dY_unitary
   · rw [C04_dZ]; simp
+
+
+/-! ## Audit round: dictionary resolution (`_unitaries_of`, `create_dict`), the `Z` letter, composed physical probabilities -/
+
+/-- SPEC side: the per-site matrices a basis string denotes over a dictionary -/
+def usOfDict (d : UDict ℝ) (basis : Fin n → Char) : Fin n → M2 ℝ := fun j => (d.lookup (basis j)).getD dZ
+
+theorem siteUs_ok (d : UDict ℝ) (use : Fin n → Bool) (basis : Fin n → Char)
+    (h : ∀ j, use j = true → (d.lookup (basis j)).isSome = true) :
+    siteUs d use basis = .ok (usOfDict d basis) := by
+  unfold siteUs
+  rw [if_pos]
+  · rfl
+  · refine List.all_eq_true.mpr (fun j _ => ?_)
+    cases hu : use j
+    · simp
+    · simp [h j hu]
+
+theorem siteUs_err (d : UDict ℝ) (use : Fin n → Bool) (basis : Fin n → Char)
+    (h : ∃ j, use j = true ∧ d.lookup (basis j) = none) :
+    siteUs d use basis = .error .KeyError := by
+  obtain ⟨j, hu, hl⟩ := h
+  unfold siteUs
+  rw [if_neg]
+  intro hall
+  have := List.all_eq_true.mp hall j (List.mem_finRange j)
+  simp [hu, hl] at this
+
+theorem C04_unitaries_of (given own : Option (UDict ℝ)) :
+    (∀ e d, given = some (e :: d) → unitariesOf given own = e :: d)
+    ∧ ((given = none ∨ given = some []) → ∀ o, own = some o → unitariesOf given own = o)
+    ∧ ((given = none ∨ given = some []) → own = none → unitariesOf given own = createDict []) := by
+  refine ⟨?_, ?_, ?_⟩
+  · rintro e d rfl; rfl
+  · rintro (rfl | rfl) o rfl <;> rfl
+  · rintro (rfl | rfl) rfl <;> rfl
+
+theorem C04_create_dict (kw : UDict ℝ) (c : Char) :
+    (createDict kw).lookup c = (kw.lookup c).or ((createDict ([] : UDict ℝ)).lookup c)
+    ∧ (createDict ([] : UDict ℝ)).lookup 'X' = some dX
+    ∧ (createDict ([] : UDict ℝ)).lookup 'Y' = some dY
+    ∧ (createDict ([] : UDict ℝ)).lookup 'Z' = some dZ
+    ∧ (c ≠ 'X' → c ≠ 'Y' → c ≠ 'Z' → (createDict ([] : UDict ℝ)).lookup c = none) := by
+  refine ⟨?_, ?_, ?_, ?_, ?_⟩
+  · simp [createDict, List.lookup_append]
+  · simp [createDict]
+  · simp [createDict, List.lookup]
+  · simp [createDict, List.lookup]
+  · intro h1 h2 h3
+    have e1 : (c == 'X') = false := by simpa using h1
+    have e2 : (c == 'Y') = false := by simpa using h2
+    have e3 : (c == 'Z') = false := by simpa using h3
+    simp [createDict, List.lookup, e1, e2, e3]
+
+
+/-! ### the four entry points from the dictionary resolution on -/
+
+theorem C04_rotate_psi_dict (given own : Option (UDict ℝ)) (basis : Fin n → Char) (ψ : List (C ℝ)) :
+    (∀ j, ((unitariesOf given own).lookup (basis j)).isSome = true) → ψ.length = 2 ^ n →
+      ∃ out, rotatePsiD given own basis ψ = .ok out ∧
+        (fun σ : Fin n → Bool => toC (out.getD (idxOf σ) default))
+          = (denseK (usOfDict (unitariesOf given own) basis)).mulVec (fun τ => toC (ψ.getD (idxOf τ) default)) := by
+  intro hall hψ
+  refine ⟨rotatePsiL n (usOfDict (unitariesOf given own) basis) ψ, ?_, C04_rotate_psi_loop _ ψ hψ⟩
+  unfold rotatePsiD
+  rw [siteUs_ok _ _ _ (fun j _ => hall j)]
+  simp [hψ, bind, Except.bind, pure, Except.pure]
+
+theorem C04_rotate_psi_dict_errors (given own : Option (UDict ℝ)) (basis : Fin n → Char) (ψ : List (C ℝ)) :
+    ((∃ j, (unitariesOf given own).lookup (basis j) = none) → rotatePsiD given own basis ψ = .error .KeyError)
+    ∧ ((∀ j, ((unitariesOf given own).lookup (basis j)).isSome = true) → ψ.length ≠ 2 ^ n →
+        rotatePsiD given own basis ψ = .error .ValueError) := by
+  constructor
+  · rintro ⟨j, hj⟩
+    unfold rotatePsiD
+    rw [siteUs_err _ _ _ ⟨j, rfl, hj⟩]
+    rfl
+  · intro hall hψ
+    unfold rotatePsiD
+    rw [siteUs_ok _ _ _ (fun j _ => hall j)]
+    have : (2 ^ n != ψ.length) = true := by simpa using fun h => hψ h.symm
+    simp [this, bind, Except.bind, throw, throwThe, MonadExceptOf.throw]
+
+theorem C04_rotate_rho_dict (given own : Option (UDict ℝ)) (basis : Fin n → Char) (ρ : List (Row ℝ)) :
+    (∀ j, ((unitariesOf given own).lookup (basis j)).isSome = true) → ρ.length = 2 ^ n →
+      ∃ out, rotateRhoD given own basis ρ = .ok out ∧
+        (Matrix.of fun σ τ : Fin n → Bool => toC (out.getD (idxOf σ) default (idxOf τ)))
+          = denseK (usOfDict (unitariesOf given own) basis) * (rhoMat (fun i j => ρ.getD i default j))ᴴ
+              * (denseK (usOfDict (unitariesOf given own) basis))ᴴ := by
+  intro hall hρ
+  refine ⟨rotateRhoL n (usOfDict (unitariesOf given own) basis) ρ, ?_, C04_rotate_rho_loop _ ρ hρ⟩
+  unfold rotateRhoD
+  rw [siteUs_ok _ _ _ (fun j _ => hall j)]
+  simp [hρ, bind, Except.bind, pure, Except.pure]
+
+/-- the dictionary-level form of `hZ`: at every site whose letter is `Z` the matrix the basis string denotes is the identity
+as soon as the dictionary's `Z` entry (if any) is -/
+theorem usOfDict_Z (d : UDict ℝ) (basis : Fin n → Char) (hZ : ∀ m, d.lookup 'Z' = some m → m2c m = 1) :
+    ∀ j, rotOf basis j = false → m2c (usOfDict d basis j) = 1 := by
+  intro j hj
+  have hb : basis j = 'Z' := by simpa [rotOf] using hj
+  unfold usOfDict
+  rw [hb]
+  cases hl : d.lookup 'Z' with
+  | none => simpa using C04_dZ
+  | some m => simpa using hZ m hl
+
+theorem C04_inner_prod_dict (given own : Option (UDict ℝ)) (basis : Fin n → Char)
+    (ψ : (Fin n → Bool) → C ℝ) (σ : Fin n → Bool) :
+    ((∀ j, basis j ≠ 'Z' → ((unitariesOf given own).lookup (basis j)).isSome = true) →
+      ∃ z, rotatePsiInnerProdD given own basis ψ σ = .ok z
+        ∧ toC z = (fastK (usOfDict (unitariesOf given own) basis) (rotOf basis)).mulVec (fun τ => toC (ψ τ)) σ
+        ∧ ((∀ m, (unitariesOf given own).lookup 'Z' = some m → m2c m = 1) →
+            toC z = (denseK (usOfDict (unitariesOf given own) basis)).mulVec (fun τ => toC (ψ τ)) σ))
+    ∧ ((∃ j, basis j ≠ 'Z' ∧ (unitariesOf given own).lookup (basis j) = none) →
+        rotatePsiInnerProdD given own basis ψ σ = .error .KeyError) := by
+  constructor
+  · intro hall
+    refine ⟨rotatePsiInnerProdE n (usOfDict (unitariesOf given own) basis) (rotOf basis) ψ σ, ?_,
+      C04_inner_prod_enum _ _ ψ σ, fun hZ => C04_inner_prod_enum_dense _ _ ψ σ (usOfDict_Z _ basis hZ)⟩
+    unfold rotatePsiInnerProdD
+    rw [siteUs_ok _ _ _ (fun j hj => hall j (by simpa [rotOf] using hj))]
+    rfl
+  · rintro ⟨j, hj, hl⟩
+    unfold rotatePsiInnerProdD
+    rw [siteUs_err _ _ _ ⟨j, by simpa [rotOf] using hj, hl⟩]
+    rfl
+
+theorem C04_rho_probs_dict (given own : Option (UDict ℝ)) (basis : Fin n → Char)
+    (ρ : (Fin n → Bool) → (Fin n → Bool) → C ℝ) (σ : Fin n → Bool) :
+    ((∀ j, basis j ≠ 'Z' → ((unitariesOf given own).lookup (basis j)).isSome = true) →
+      ∃ p, rotateRhoProbsD given own basis ρ σ = .ok p
+        ∧ p = ((fastK (usOfDict (unitariesOf given own) basis) (rotOf basis) * (Matrix.of fun a b => toC (ρ a b))
+                * (fastK (usOfDict (unitariesOf given own) basis) (rotOf basis))ᴴ) σ σ).re
+        ∧ ((∀ m, (unitariesOf given own).lookup 'Z' = some m → m2c m = 1) →
+            p = ((denseK (usOfDict (unitariesOf given own) basis) * (Matrix.of fun a b => toC (ρ a b))
+                * (denseK (usOfDict (unitariesOf given own) basis))ᴴ) σ σ).re))
+    ∧ ((∃ j, basis j ≠ 'Z' ∧ (unitariesOf given own).lookup (basis j) = none) →
+        rotateRhoProbsD given own basis ρ σ = .error .KeyError) := by
+  constructor
+  · intro hall
+    refine ⟨rotateRhoProbsE n (usOfDict (unitariesOf given own) basis) (rotOf basis) ρ σ, ?_,
+      C04_rho_probs_enum _ _ ρ σ, fun hZ => C04_rho_probs_enum_dense _ _ ρ σ (usOfDict_Z _ basis hZ)⟩
+    unfold rotateRhoProbsD
+    rw [siteUs_ok _ _ _ (fun j hj => hall j (by simpa [rotOf] using hj))]
+    rfl
+  · rintro ⟨j, hj, hl⟩
+    unfold rotateRhoProbsD
+    rw [siteUs_err _ _ _ ⟨j, by simpa [rotOf] using hj, hl⟩]
+    rfl
+
+/-! ### the fast paths never read the matrix of a non-rotated site (audit item C04-3) -/
+
+/-- the fast-path operator is the dense operator of the basis string in which every non-rotated site carries the
+IDENTITY (the default `Z`), whatever `us` holds there -/
+theorem C04_fastK_eq_dense_patched (us : Fin n → M2 ℝ) (rot : Fin n → Bool) :
+    fastK us rot = denseK (fun j => if rot j then us j else dZ) := by
+  funext σ τ
+  unfold fastK denseK
+  refine Finset.prod_congr rfl (fun j _ => ?_)
+  by_cases hr : rot j
+  · simp [hr]
+  · simp [hr, C04_dZ, Matrix.one_apply]
+
+/-- `rotate_psi_inner_prod` / `rotate_rho_probs` do not depend on the matrices at sites whose letter is `Z` -/
+theorem C04_fast_paths_ignore_unrotated (us us' : Fin n → M2 ℝ) (rot : Fin n → Bool)
+    (h : ∀ j, rot j = true → us j = us' j) (σ : Fin n → Bool) :
+    (∀ ψ, rotatePsiInnerProdE n us rot ψ σ = rotatePsiInnerProdE n us' rot ψ σ)
+    ∧ (∀ ρ, rotateRhoProbsE n us rot ρ σ = rotateRhoProbsE n us' rot ρ σ) := by
+  have hK : fastK us rot = fastK us' rot := by
+    rw [C04_fastK_eq_dense_patched, C04_fastK_eq_dense_patched]
+    congr 1
+    funext j
+    by_cases hr : rot j
+    · simp [hr, h j hr]
+    · simp [hr]
+  constructor
+  · intro ψ
+    apply toC_injective
+    rw [C04_inner_prod_enum, C04_inner_prod_enum, hK]
+  · intro ρ
+    rw [C04_rho_probs_enum, C04_rho_probs_enum, hK]
+
+/-- unitarity of the fast-path operator needs unitarity at the ROTATED sites only -/
+theorem C04_fastK_unitary (us : Fin n → M2 ℝ) (rot : Fin n → Bool)
+    (hU : ∀ j, rot j = true → (m2c (us j))ᴴ * m2c (us j) = 1) :
+    (fastK us rot)ᴴ * fastK us rot = 1 := by
+  rw [C04_fastK_eq_dense_patched]
+  apply C04_dense_unitary
+  intro j
+  by_cases hr : rot j
+  · simpa [hr] using hU j hr
+  · simp [hr, C04_dZ]
+
+/-! ### physical probabilities of the MODEL's states through the fast paths (audit item C04-4) -/
+
+/-- a unitary matrix preserves the sum of squared moduli -/
+theorem unitary_mulVec_normSq (K : Matrix (Fin n → Bool) (Fin n → Bool) ℂ) (hK : Kᴴ * K = 1)
+    (v : (Fin n → Bool) → ℂ) :
+    ∑ σ, Complex.normSq (K.mulVec v σ) = ∑ σ, Complex.normSq (v σ) := by
+  have : star (K.mulVec v) ⬝ᵥ (K.mulVec v) = star v ⬝ᵥ v := by
+    rw [Matrix.star_mulVec, Matrix.dotProduct_mulVec, Matrix.vecMul_vecMul, hK, Matrix.vecMul_one]
+  have conv : ∀ w : (Fin n → Bool) → ℂ, ((star w ⬝ᵥ w : ℂ)).re = ∑ σ, Complex.normSq (w σ) := by
+    intro w
+    simp only [dotProduct, Pi.star_apply, Complex.re_sum]
+    refine Finset.sum_congr rfl (fun σ _ => ?_)
+    simp [Complex.normSq_apply, Complex.mul_re]
+  rw [← conv, ← conv, this]
+
+/-- **C04.7a (fast path)** the rotated Born probabilities `|rotate_psi_inner_prod(basis, σ)|²` summed over all outcomes
+equal `Σ|ψ|²`, for every ψ and every basis pattern whose ROTATED sites carry unitaries. -/
+theorem C04_inner_prod_probs_sum (us : Fin n → M2 ℝ) (rot : Fin n → Bool)
+    (hU : ∀ j, rot j = true → (m2c (us j))ᴴ * m2c (us j) = 1) (ψ : (Fin n → Bool) → C ℝ) :
+    ∑ σ, Complex.normSq (toC (rotatePsiInnerProdE n us rot ψ σ)) = ∑ σ, Complex.normSq (toC (ψ σ)) := by
+  simp_rw [C04_inner_prod_enum]
+  exact unitary_mulVec_normSq _ (C04_fastK_unitary us rot hU) _
+
+/-- **C04.7 (model wavefunction)** for the model's complex wavefunction `ψ_λμ` the rotated probabilities computed by the
+fast path are non-negative (squared moduli) and sum to the reported normalisation `Z_λ`, in every basis. -/
+theorem C04_model_probs_physical_psi {h : ℕ} (am ph : RBM ℝ n h) (us : Fin n → M2 ℝ) (rot : Fin n → Bool)
+    (hU : ∀ j, rot j = true → (m2c (us j))ᴴ * m2c (us j) = 1) :
+    ∑ σ, Complex.normSq (toC (rotatePsiInnerProdE n us rot (fun τ => Wave.psiCplx am ph (fun j => bit (τ j))) σ))
+      = Wave.normalization am (fun k : Fin (2 ^ n) => (spaceRow n k.val : Fin n → ℝ)) := by
+  rw [C04_inner_prod_probs_sum us rot hU, C01_normalization]
+  refine Finset.sum_congr rfl (fun σ _ => ?_)
+  rw [← C01_normSq_psi_complex am ph]
+  simp [Complex.normSq_apply, sq]
+
+/-- … and for the positive wavefunction. -/
+theorem C04_model_probs_physical_pos {h : ℕ} (am : RBM ℝ n h) (us : Fin n → M2 ℝ) (rot : Fin n → Bool)
+    (hU : ∀ j, rot j = true → (m2c (us j))ᴴ * m2c (us j) = 1) :
+    ∑ σ, Complex.normSq (toC (rotatePsiInnerProdE n us rot (fun τ => Wave.psiPos am (fun j => bit (τ j))) σ))
+      = Wave.normalization am (fun k : Fin (2 ^ n) => (spaceRow n k.val : Fin n → ℝ)) := by
+  rw [C04_inner_prod_probs_sum us rot hU, C01_normalization]
+  refine Finset.sum_congr rfl (fun σ _ => ?_)
+  rw [← C01_normSq_psi_positive am]
+  simp [Complex.normSq_apply, sq]
+
+/-- **C04.7 (model density matrix)** "the rotated probabilities of a physical state are non-negative and sum to its
+normalisation in every basis", for the MODEL's density matrix through the fast path AS CODED: under the guard of C02
+(`NZ` for all pairs of basis states; see `C02_NZ_of_amp_off_hyperplanes`) `rotate_rho_probs(basis, σ) ≥ 0`, and — when the
+rotated sites carry unitaries — they sum over all `2ⁿ` outcomes to `normalization`. No hypothesis on the dictionary's `Z`. -/
+theorem C04_model_probs_physical {h a : ℕ} (am ph : PRBM ℝ n h a) (us : Fin n → M2 ℝ) (rot : Fin n → Bool)
+    (hNZ : ∀ σ τ : Fin n → Bool, C02.NZ am ph (C02.bits σ) (C02.bits τ)) :
+    (∀ σ, 0 ≤ rotateRhoProbsE n us rot (fun s t => Density.rho am ph (C02.bits s) (C02.bits t)) σ)
+    ∧ ((∀ j, rot j = true → (m2c (us j))ᴴ * m2c (us j) = 1) →
+        ∑ σ, rotateRhoProbsE n us rot (fun s t => Density.rho am ph (C02.bits s) (C02.bits t)) σ
+          = Density.normalization am (fun k : Fin (2 ^ n) => (spaceRow n k.val : Fin n → ℝ))) := by
+  have hM : (Matrix.of fun a b : Fin n → Bool => toC (Density.rho am ph (C02.bits a) (C02.bits b)))
+      = C02.rhoMat am ph := rfl
+  have hpsd : (C02.rhoMat am ph).PosSemidef := by
+    rw [C02.rhoMat_eq_mul_conjTranspose am ph hNZ]
+    exact Matrix.posSemidef_self_mul_conjTranspose _
+  constructor
+  · intro σ
+    rw [C04_rho_probs_enum, hM]
+    exact C04_rho_probs_nonneg _ _ hpsd σ
+  · intro hU
+    simp_rw [C04_rho_probs_enum, hM]
+    rw [← Complex.re_sum, C04_rho_probs_sum _ _ (C04_fastK_unitary us rot hU), ← (C02.C02_trace am ph).1,
+      Matrix.trace, Complex.re_sum, ← sum_rows n (fun σ => (Matrix.diag (C02.rhoMat am ph) σ).re)]
+    rfl
+
+/-- **FINDING witness (C04-3, `create_dict(Z=<Hadamard>)`)**: one qubit, basis string `"Z"`, dictionary
+`create_dict(Z = X-matrix)`, `ψ = |0⟩`, outcome `σ = 1`. The fast path `rotate_psi_inner_prod` returns `ψ(1) = 0` (the
+letter `Z` is "not rotated"), while the dense Kronecker product of the per-site unitaries the basis string denotes over that
+dictionary — what `rotate_psi` computes, `C04_rotate_psi_dict` — has entry `1/√2`. So for a dictionary whose `Z` entry is not
+the identity the statement "gives exactly what the dense Kronecker product gives" fails for the fast paths. -/
+theorem C04_Z_override_fast_ne_dense :
+    let d : UDict ℝ := createDict [('Z', dX)]
+    let basis : Fin 1 → Char := fun _ => 'Z'
+    let ψ : (Fin 1 → Bool) → C ℝ := fun τ => if τ 0 then C.zero else C.one
+    let σ : Fin 1 → Bool := fun _ => true
+    ∃ z, rotatePsiInnerProdD (some d) none basis ψ σ = .ok z ∧ toC z = 0
+      ∧ (denseK (usOfDict (unitariesOf (some d) none) basis)).mulVec (fun τ => toC (ψ τ)) σ = ((invSqrt2 : ℝ) : ℂ)
+      ∧ ((invSqrt2 : ℝ) : ℂ) ≠ 0 := by
+  intro d basis ψ σ
+  have hsum : ∀ f : (Fin 1 → Bool) → ℂ, ∑ τ, f τ = f (fun _ => false) + f (fun _ => true) := by
+    intro f
+    rw [← (Equiv.funUnique (Fin 1) Bool).symm.sum_comp]
+    simp [add_comm]
+    rfl
+  obtain ⟨z, hz, hfast, -⟩ := (C04_inner_prod_dict (some d) none basis ψ σ).1 (by intro j hj; exact absurd rfl hj)
+  refine ⟨z, hz, ?_, ?_, ?_⟩
+  · rw [hfast]
+    simp only [Matrix.mulVec, dotProduct, hsum, fastK, rotOf, basis]
+    simp [ψ, σ]
+  · simp only [Matrix.mulVec, dotProduct, hsum, denseK, usOfDict, unitariesOf, d, createDict, basis, m2c]
+    simp [ψ, σ, dX]
+    apply Complex.ext <;> simp
+  · have h := invSqrt2_sq
+    intro h0
+    have : (invSqrt2 : ℝ) = 0 := by exact_mod_cast h0
+    rw [this] at h
+    norm_num at h
 
 end QV.Props
